@@ -29,7 +29,13 @@ func verifRenderAST(e ast.Expr) string {
 		return "..." + verifRenderAST(x.Elt)
 	case *ast.MapType:
 		return "map[" + verifRenderAST(x.Key) + "]" + verifRenderAST(x.Value)
+	case *ast.ParenExpr:
+		return verifRenderAST(x.X)
 	case *ast.ChanType:
+		// the printed text "chan <-chan T" parses as chan<- (chan T): render what is read back
+		if inner, ok := x.Value.(*ast.ChanType); ok && x.Dir == ast.SEND|ast.RECV && inner.Dir == ast.RECV {
+			return "chan<- chan " + verifRenderAST(inner.Value)
+		}
 		switch x.Dir {
 		case ast.SEND:
 			return "chan<- " + verifRenderAST(x.Value)
@@ -253,7 +259,9 @@ func verifAnyType(depth int, user, ext *types.Package) types.Type {
 	// structs and interfaces are leaves (keeps the number of shapes tractable)
 	sub := func() types.Type { return verifAnyType(depth-1, user, ext) }
 	leaf := func() types.Type { return verifAnyType(0, user, ext) }
-	switch verifChoice(10) {
+	switch verifChoice(11) {
+	case 10: // channel of channel, every pair of directions
+		return types.NewChan(types.ChanDir(verifChoice(3)), types.NewChan(types.ChanDir(verifChoice(3)), verifLeaf(user, ext)))
 	case 0:
 		return verifLeaf(user, ext)
 	case 1:
